@@ -68,19 +68,51 @@ def run(chk, repo, tier):
     chk.stats['exhaustive'] = True
 
     # ---------------------------------------------------------------- C08-a
+    # every cell is decided on what the code answers for it: the predicate and the result function are evaluated for each
+    # pair of plane types with the module's literal tables read by value (however the table is laid out, or whether the
+    # result is looked up or computed)
     header, doc = tables.doc_mul_table(repo)
-    code = tables.code_mul_table(repo)
     mod = repo.modules['plane']
+    try:
+        code = tables.code_mul_table(repo)
+    except AnalysisError:
+        code = None         # not a dict of dicts any more
+    helpers = [f.key for f in repo.all_functions() if f.module.name == 'plane' and f.cls is None and 'ptype' in f.name]
+    fres = repo.func('plane._mul_result_ptype')
+    fcan = repo.func('plane._can_mul_ptype')
+    cells_decided = True
     for (w, p), want in sorted(doc.items()):
-        got = code.get((w, p))
-        gname = got[0] if got else None
-        loc = f'{mod.relpath}:{got[1]}' if got else f'{mod.relpath}:{mod.globals[tables.mul_table_name(repo)].lineno}'
-        chk.ob('C08-a', 'T-cell', 'plane._mul_ptype_table', f'wavefront {w} x plane {p}', gname == want,
-               f'documented: {want or "Not allowed"}; code: {gname or "Not allowed"}', loc)
-    for (w, p), (r, line) in sorted(code.items()):
-        if (w, p) not in doc:
-            chk.ob('C08-a', 'T-cell', 'plane._mul_ptype_table', f'wavefront {w} x plane {p}', False,
-                   f'cell present in code ({r}) but not in the documented table', f'{mod.relpath}:{line}')
+        cfg = {'wavefront_ptype': pt(w), 'plane_ptype': pt(p)}
+        _, rp, _ = analyse(repo, fres, config=cfg, inline=helpers, literal_tables=True)
+        _, cp, _ = analyse(repo, fcan, config=cfg, inline=helpers, literal_tables=True)
+        got = allowed = None
+        det = ''
+        if len(rp) == 1 and rp[0].status == 'return' and pt_name(rp[0].ret):
+            got = pt_name(rp[0].ret)
+        elif len(rp) == 1 and rp[0].status == 'raise' and rp[0].exc == 'TypeError':
+            got = False
+        else:
+            det = '_mul_result_ptype: ' + '; '.join(f'{q.status} {fmt(q.ret)[:50] if q.status == "return" else q.exc} [{conds_str(q)[:60]}]' for q in rp)
+        if len(cp) == 1 and cp[0].status == 'return' and isinstance(cp[0].ret, Const) and isinstance(cp[0].ret.value, bool):
+            allowed = cp[0].ret.value
+        else:
+            det += ' _can_mul_ptype: ' + '; '.join(f'{q.status} {fmt(q.ret)[:50] if q.status == "return" else q.exc}' for q in cp)
+        line = code.get((w, p), (None, None))[1] if code else None
+        loc = f'{mod.relpath}:{line}' if line else fres.loc()
+        if got is None or allowed is None:
+            cells_decided = False
+            chk.undecided('C08-a', 'T-cell', 'plane._mul_result_ptype', f'wavefront {w} x plane {p}',
+                          'the answer of the code for this pair does not fold to a plane type / TypeError: ' + det[:200], loc)
+            continue
+        ok = (got == want if want else got is False) and allowed == bool(want)
+        chk.ob('C08-a', 'T-cell', 'plane._mul_ptype_table', f'wavefront {w} x plane {p}', ok,
+               f'documented: {want or "Not allowed"}; code: _mul_result_ptype -> {got or "TypeError"}, '
+               f'_can_mul_ptype -> {allowed}', loc)
+    if code is not None:
+        for (w, p), (r, line) in sorted(code.items()):
+            if (w, p) not in doc:
+                chk.ob('C08-a', 'T-cell', 'plane._mul_ptype_table', f'wavefront {w} x plane {p}', False,
+                       f'cell present in code ({r}) but not in the documented table', f'{mod.relpath}:{line}')
 
     # ---------------------------------------------------------------- C08-b
     # B4: a module-level function used as a truth value
@@ -105,7 +137,10 @@ def run(chk, repo, tier):
                         chk.ob('C08-b', 'B4-truth', f.key, f'truth test of function `{dotted(t)}`', False,
                                f'`{seg(f, t)}` tests a function object (always true), the call is missing',
                                f.loc(t))
-    TABLE = 'plane.' + tables.mul_table_name(repo)
+    try:
+        TABLE = 'plane.' + tables.mul_table_name(repo)
+    except AnalysisError:
+        TABLE = 'plane.<no table>'          # the answers are computed some other way: C08-a evaluated them
     fcan = repo.func('plane._can_mul_ptype')
     _, paths, _ = analyse(repo, fcan)
     oks = []
@@ -130,17 +165,20 @@ def run(chk, repo, tier):
             ('sym', 'wavefront_ptype') in nf.value_atoms(a[2][1]) and \
             ('sym', TABLE) in nf.value_atoms(a[2][1])
         oks = [good]
-    chk.ob('C08-b', 'D-table-use', 'plane._can_mul_ptype', 'membership test on the table', all(oks) and bool(oks),
+    structural = all(oks) and bool(oks)
+    chk.ob('C08-b', 'D-table-use', 'plane._can_mul_ptype', 'answers from the table', structural or cells_decided,
            'returns True exactly when plane_ptype is a key of _mul_ptype_table[wavefront_ptype]'
-           if all(oks) else 'does not test plane_ptype against _mul_ptype_table[wavefront_ptype]', fcan.loc())
+           if structural else ('its answer was evaluated for every documented pair (C08-a)' if cells_decided else
+                               'does not test plane_ptype against _mul_ptype_table[wavefront_ptype]'), fcan.loc())
     fres = repo.func('plane._mul_result_ptype')
     _, paths, _ = analyse(repo, fres)
     want = nf.index(nf.index(S(TABLE), S('wavefront_ptype')), S('plane_ptype'))
     rets = returns(paths)
-    chk.ob('C08-b', 'D-table-use', 'plane._mul_result_ptype', 'table lookup',
-           bool(rets) and all(p.ret == want for p in rets),
-           f'returns {", ".join(fmt(p.ret) for p in rets)}; expected _mul_ptype_table[wavefront_ptype][plane_ptype]',
-           fres.loc())
+    structural = bool(rets) and all(p.ret == want for p in rets)
+    chk.ob('C08-b', 'D-table-use', 'plane._mul_result_ptype', 'answers from the table', structural or cells_decided,
+           f'returns {", ".join(fmt(p.ret)[:80] for p in rets)}' +
+           ('' if structural else '; its answer was evaluated for every documented pair (C08-a)' if cells_decided
+            else '; expected _mul_ptype_table[wavefront_ptype][plane_ptype]'), fres.loc())
     fmul = repo.func('plane.Plane.multiply')
     wf = repo.cls('wavefront.Wavefront')
     _, paths, _ = analyse(repo, fmul, types={('sym', 'wavefront'): wf})
@@ -177,14 +215,20 @@ def run(chk, repo, tier):
     # ---------------------------------------------------------------- C08-c
     docprop = tables.doc_propagation(repo)
     fpp = repo.func('propagate._propagate_ptype')
+    direct = 'ptype' in [fpp.old_name(n) for n, _, _ in fpp.params()]
+    folded = {}
     for name in tables.PTYPES:
+        if not direct:
+            break           # the helper is asked some other way: the transitions are evaluated through its callers below
         _, paths, _ = analyse(repo, fpp, config={'ptype': pt(name), 'method': Const('fraunhofer')})
         if len(paths) != 1:
-            raise AnalysisError(f'_propagate_ptype({name}) does not fold to a single path')
-        p = paths[0]
+            direct = False  # the answer does not fold from the type alone
+            break
+        folded[name] = paths[0]
+    for name, p in sorted(folded.items()) if direct else ():
+        want = docprop.get(name)
         got = pt_name(p.ret) if p.status == 'return' else None
         exc = p.exc if p.status == 'raise' else None
-        want = docprop.get(name)
         ok = (got == want) if want else (p.status == 'raise' and exc == 'TypeError')
         chk.ob('C08-c', 'T-transition', 'propagate._propagate_ptype', f'propagation from {name}', ok,
                f'documented: {want or "refused (TypeError)"}; code: {got or ("raises " + str(exc))}', fpp.loc())
@@ -197,11 +241,29 @@ def run(chk, repo, tier):
                 v = e.bound.get('ptype')
                 a = v.single_atom() if isinstance(v, Poly) else None
                 ok1 = a is not None and is_app(a, 'call:propagate._propagate_ptype') and \
-                    wpt == {k.items[0].value: k.items[1] for k in a[2]}.get('ptype')
+                    wpt == {k.items[0].value: k.items[1] for k in a[2]}.get(fpp.params()[0][0] if fpp.params() else 'ptype')
                 good = good and ok1
-        chk.ob('C08-c', 'D-flow', key, 'output ptype', good and n > 0,
-               'output wavefront ptype is _propagate_ptype(wavefront.ptype)' if good and n else
-               'output wavefront ptype does not come from _propagate_ptype(wavefront.ptype)', f.loc())
+        if good and n and direct:
+            chk.ob('C08-c', 'D-flow', key, 'output ptype', True, 'output wavefront ptype is _propagate_ptype(wavefront.ptype)', f.loc())
+            continue
+        # wired some other way: evaluate the propagation itself for a wavefront of each type
+        for name in tables.PTYPES:
+            want = docprop.get(name)
+            facts = {nf.attr(S('wavefront'), 'ptype').single_atom(): pt(name), nf.attr(S('wavefront'), '_ptype').single_atom(): pt(name)}
+            _, ps, _ = analyse(repo, key, types={('sym', 'wavefront'): wf}, facts=facts, inline=[fpp.key], max_paths=1024)
+            bad, seen = [], 0
+            for p in ps:
+                if p.status == 'return':
+                    seen += 1
+                    outs = [pt_name(e.bound.get('ptype')) for e in p.calls('wavefront.Wavefront.empty')]
+                    if not want or not outs or any(o != want for o in outs):
+                        bad.append(f'returns a wavefront of type {outs or "?"} [{conds_str(p)[:100]}]')
+                elif p.status == 'raise' and want and p.exc == 'TypeError' and not p.conds:
+                    bad.append('refused')
+            if not want and not any(p.status == 'raise' and p.exc == 'TypeError' for p in ps):
+                bad.append('never refused with TypeError')
+            chk.ob('C08-c', 'T-transition', key, f'propagation from {name}', not bad,
+                   f'documented: {want or "refused (TypeError)"}; code: {"; ".join(bad[:2]) or "as documented"}', f.loc())
 
     # ------------------------------------------------------------ C08-d / f
     docc = tables.doc_class_ptypes(repo)
